@@ -155,9 +155,13 @@ def sweep_all_lengths(ctx, FP, rng, certified):
     else) is handed to the proven certificate, which alone decides"""
     drv = ctx.driver()
     for d in range(1, 201):
-        if d in certified:
+        if d in certified and d % 3:
             continue
         delta = float(10 ** rng.uniform(-3, -0.02))
+        if rng.random() < 0.4:
+            delta = float(1 - 10 ** rng.uniform(-4, -0.7))       # delta close to 1 (gamma within 1e-9 .. 1e-3 of 1 for long sequences)
+        elif rng.random() < 0.15:
+            delta = float(10 ** rng.uniform(-12, -3))              # tiny delta
         L = 2 * d + 1
         with core.quiet():
             g = FP.FPSearch(verbose=False)
